@@ -84,7 +84,7 @@ pub fn radix<const N: usize>(t: &mut Tape, c: &mut Case) -> CaseResult {
     };
     c.limbs("a", &al);
     c.num("radix", radix as u64);
-    c.nontrivial(bit_len(&al) > 64);
+    c.nontrivial(bit_len(&al) > if N == 1 { 32 } else { 64 });
     let bits = 64 * N as u32;
     let a = uint::<N>(&al);
     let ba = boxed(&al);
